@@ -1,12 +1,179 @@
 import Driver.Util
-/-! Driver section for C16 (stub until the model is online). -/
+import RxnModel.Model.Splits
+/-!
+Driver section for C16. Header: `M C16 kin <shards> <runners>` | `M C16 cut` | `M C16 misc`.
+`kin` runs the model of the code as it is (`keep = false`) and the ideal splitter that also persists withheld
+shards (`keep = true`) side by side; where they differ the line is `X #spec Y #kf D16c`.
+-/
 namespace Driver.C16
-open Rxn Driver
+open Rxn Rxn.Splits Driver
 
-def step (st : Unit) : List String → Unit × String
-  | _ => (st, "bad-op")
+structure KSt where
+  impl : Sp
+  spec : Sp
+  started : Bool := false
+
+inductive St where
+  | kin (k : KSt)
+  | cut (r : RSt)
+  | ecut
+  | misc
+
+def splitOnC (s : String) (c : String) : List String :=
+  if s == "-" || s == "" then [] else (s.splitOn c).filter (· ≠ "")
+
+def natList (s : String) : List Nat := (splitOnC s ",").map natOr
+
+/-- `a=b,c=d` or `a@b,c@d` -/
+def pairList (sep : String) (s : String) : List (Nat × Nat) :=
+  (splitOnC s ",").map fun p => match p.splitOn sep with
+    | [a, b] => (natOr a, natOr b)
+    | _ => (0, 0)
+
+def insertSorted (x : Nat) : List Nat → List Nat
+  | [] => [x]
+  | y :: ys => if x ≤ y then x :: y :: ys else y :: insertSorted x ys
+
+def sortNat (l : List Nat) : List Nat := l.foldl (fun acc x => insertSorted x acc) []
+
+def insertPair (x : Nat × Nat) : List (Nat × Nat) → List (Nat × Nat)
+  | [] => [x]
+  | y :: ys => if x.1 < y.1 || (x.1 == y.1 && x.2 ≤ y.2) then x :: y :: ys else y :: insertPair x ys
+
+def sortPairs (l : List (Nat × Nat)) : List (Nat × Nat) := l.foldl (fun acc x => insertPair x acc) []
+
+def showCur (c : Nat) : String := if c == 0 then "-" else toString c
+
+def showCall (runners : Nat) (c : Call) : String :=
+  let parts := (List.range runners).filterMap fun r =>
+    let mine := sortPairs ((c.filter (·.1 == r)).map fun x => (x.2.1, x.2.2))
+    if mine.isEmpty then none
+    else some s!"r{r}:[{joinWith "," (mine.map fun p => s!"{p.1}@{showCur p.2}")}]"
+  "A " ++ joinWith " " parts
+
+def showCalls (runners : Nat) (cs : List Call) : String :=
+  if cs.isEmpty then "-" else joinWith " | " (cs.map (showCall runners))
+
+def both (a b : String) : String := if a == b then a else s!"{a} #spec {b} #kf D16c"
+
+def parentsOf (s : Sp) (i : Nat) : List Nat := (s.stream[i]?.map (·.parents)).getD []
+
+def firstDup : List Nat → Option Nat
+  | [] => none
+  | x :: xs => if xs.contains x then some x else firstDup xs
+
+/-- the statements of `one_reader`, `children_withheld` and completeness after a tick, evaluated on a state -/
+def chk (withLost : Bool) (s : Sp) : String :=
+  match firstDup (sortNat s.log) with
+  | some i => s!"dup {i}"
+  | none =>
+    match (sortNat s.log).find? (fun i => (parentsOf s i).any (fun p => !s.done.contains p)) with
+    | some i => s!"early {i}"
+    | none =>
+      match (List.range s.stream.length).find? (fun i => withLost &&
+          !s.done.contains i && !s.log.contains i && (parentsOf s i).all (fun p => s.done.contains p)) with
+      | some i => s!"lost {i}"
+      | none => "ok"
+
+def showCkpt (s : Sp) : String :=
+  match s.ck with
+  | none => "none"
+  | some c =>
+    let ids := sortNat ((c.tr.known.filter (isAssigned c.tr)).map (·.id))
+    let last := if c.tr.next == 0 then "-" else toString (c.tr.next - 1)
+    s!"last={last} assigned={joinWith "," (ids.map toString)}"
+
+def kstep (k : KSt) (a : Act) (withLost : Bool := true) : KSt × String :=
+  let (i', ci) := Splits.step false k.impl a
+  let (s', cs) := Splits.step true k.spec a
+  ({ k with impl := i', spec := s' },
+   both (showCalls i'.runners ci ++ " ; " ++ chk withLost i') (showCalls s'.runners cs ++ " ; " ++ chk withLost s'))
+
+def showIdx (l : List Nat) : String := if l.isEmpty then "-" else joinWith "." ((sortNat l).map toString)
+
+def showBarrier (r : RSt) : String :=
+  match r.reports.getLast? with
+  | none => "none"
+  | some rep =>
+    let snap := sortPairs (rep.snap.map fun x => (x.split, x.cur))
+    let pre := r.out.take rep.pos
+    let st := joinWith "," (snap.map fun p => s!"{p.1}={p.2}")
+    let del := joinWith " " (snap.map fun p => s!"{p.1}:{showIdx (recIdx p.1 pre)}")
+    s!"st {st} | {del}"
+
+def stepKin (k : KSt) (ws : List String) : KSt × String :=
+  let env := match ws with
+    | "start" :: _ | "restore" :: _ | "split" :: _ | "merge" :: _ => true
+    | _ => false
+  if !k.started && !env then (k, "not-started") else
+  match ws with
+  | ["start"] => kstep { k with started := true } .start
+  | ["restore"] => kstep { k with started := true } .start
+  | ["tick"] => kstep k .tick
+  | ["finish", ids] => kstep k (.finish (natList ids)) false
+  | ["ckpt", states] =>
+    let (k', _) := kstep k (.ckpt (pairList "=" states))
+    (k', both (showCkpt k'.impl) (showCkpt k'.spec))
+  | ["split", i, a] =>
+    let ok := (envSplit k.impl (natOr i) (natOr a)).isSome
+    ((kstep k (.split (natOr i) (natOr a))).1, if ok then "ok" else "err")
+  | ["merge", i, j] =>
+    let ok := (envMerge k.impl (natOr i) (natOr j)).isSome
+    ((kstep k (.merge (natOr i) (natOr j))).1, if ok then "ok" else "err")
+  | ["chk"] => (k, both (chk true k.impl) (chk true k.spec))
+  | _ => (k, "bad-op")
+
+def stepCut (r : RSt) : List String → RSt × String
+  | ["assign", l] => (rstep r (.assign (pairList "@" l)), "ok")
+  | ["read", b] =>
+    let r' := rstep r (.read (natList b))
+    (r', s!"n={r'.out.length - r.out.length}")
+  | ["barrier", n] => let r' := rstep r (.barrier (natOr n)); (r', showBarrier r')
+  | ["readbar1", n, b] => let r' := rstep (rstep r (.read (natList b))) (.barrier (natOr n)); (r', showBarrier r')
+  | ["readbar2", n, b] => let r' := rstep (rstep r (.read (natList b))) (.barrier (natOr n)); (r', showBarrier r')
+  | ["end"] => (r, "ok")   -- spec: C16.cursor_matches_cut for every report
+  | _ => (r, "bad-op")
+
+def showGroups (gs : List (List Nat)) : String :=
+  joinWith ";" (gs.map fun g => if g.isEmpty then "-" else joinWith "." (g.map toString))
+
+def showEmb (gs : List (List Nat)) : String :=
+  let parts := (List.range gs.length).filterMap fun r =>
+    match gs[r]? with
+    | some g => if g.isEmpty then none else some s!"r{r}:[{joinWith "," (g.map fun i => s!"{i}@-")}]"
+    | none => none
+  "A " ++ joinWith " " parts
+
+def stepMisc : List String → String
+  | ["part", len, n] => showGroups (partition (List.range (natOr len)) (natOr n))
+  | ["partchk", _, _] => "ok"      -- spec: C16.partition_exact
+  | ["embchk", _, _] => "ok"       -- spec: C16.partition_exact / partition_disjoint on `embeddedAssign`
+  | ["emb", k, n] => showEmb (embeddedAssign (natOr k) (natOr n))
+  | ["http", n, states] =>
+    if natOr n == 0 then "A " else
+      s!"A r0:[only@{toHex (httpCursor ((splitOnC states ",").map hexOr))}]"
+  | ["uidx", lo, hi, n] => toString (uidx (natOr lo) (natOr hi) (natOr n))
+  | _ => "bad-op"
+
+def step (st : St) (ws : List String) : St × String :=
+  match st with
+  | .kin k => let (k', o) := stepKin k ws; (.kin k', o)
+  | .cut r => let (r', o) := stepCut r ws; (.cut r', o)
+  | .ecut => (.ecut, match ws with   -- free-running real reader: every op evaluates C16.cursor_matches_cut, spec `ok`
+      | ["assign", _] | ["pause", _] | ["barrier", _] => "ok"
+      | _ => "bad-op")
+  | .misc => (.misc, stepMisc ws)
+
+def initSt (header : String) : St :=
+  match words header with
+  | ["M", "C16", "kin", shards, runners] =>
+    let s := initSp (natOr shards) (natOr runners)
+    .kin { impl := s, spec := s }
+  | "M" :: "C16" :: "cut" :: _ => .cut {}
+  | "M" :: "C16" :: "ecut" :: _ => .ecut
+  | _ => .misc
 
 def handle (lines : Array String) (i : Nat) (out : Array String) : Nat × Array String :=
-  runLines step () lines i out
+  runLines step (initSt (lines.getD (i - 1) "")) lines i out
 
 end Driver.C16
